@@ -194,3 +194,12 @@ func VerifClientSizes(c *Client) (uint32, uint32) { return c.messageSize, c.payl
 func VerifVersionPredicates(v uint32) (walkgetattr, ucreation bool) {
 	return versionSupportsTwalkgetattr(v), versionSupportsTucreation(v)
 }
+
+// VerifFileFID returns the fid of a client File (0, false if f is not a client File).
+func VerifFileFID(f File) (uint64, bool) {
+	cf, ok := f.(*clientFile)
+	if !ok {
+		return 0, false
+	}
+	return uint64(cf.fid), true
+}
